@@ -154,6 +154,12 @@ func verifCheckTemplate(name, src string) (msgs []string) {
 			}
 			i += w
 		}
+		// the position just past the last rune of the expression is mapped too (editors ask for it)
+		if tp, ok := sm.TargetPositionFromSource(line, col); !ok {
+			return fmt.Sprintf("template %s: expression %q starting at %d:%d: the position just past its end (source %d:%d) has no target position", name, e.Value, e.Range.From.Line, e.Range.From.Col, line, col)
+		} else if to, ok2 := verifOffset(gStarts, gen, tp.Line, tp.Col); !ok2 || to < len(e.Value) || gen[to-len(e.Value):to] != e.Value {
+			return fmt.Sprintf("template %s: expression %q: the position just past its end (source %d:%d) maps to target %d:%d, which is not just past the expression in the generated file", name, e.Value, line, col, tp.Line, tp.Col)
+		}
 	}
 	return ""
 	}
@@ -201,6 +207,7 @@ func TestVerifReplayC07(t *testing.T) {
 		"multibyte-before": "package p\n\ntempl a(s string) {\n\t<p>é日本{ s }</p>\n}\n",
 		"multibyte-inside": "package p\n\ntempl a() {\n\t<p>{ \"é日本\" + \"x\" }</p>\n}\n",
 		"multiline-expr":   "package p\n\ntempl a(items []string) {\n\tfor _, it := range items {\n\t\t<li>{ it }</li>\n\t}\n\t<p>{ fmt.Sprintf(\"%s-%s\",\n\t\t\"a\",\n\t\t\"bé\") }</p>\n}\n",
+		"multibyte-multiline": "package p\n\ntempl a(n string) {\n\tif n == \"生日快乐\" {\n\t\t<p>{ fmt.Sprintf(\"héllo %s\",\n\t\t\t\"wörld\",\n\t\t\tn) }</p>\n\t}\n}\n",
 		"two-on-a-line":    "package p\n\ntempl a() { <a></a> } templ b() { <b></b> }\n",
 		"if-else":          "package p\n\ntempl a(x int) {\n\tif x == 1 {\n\t\t<a></a>\n\t} else if x == 2 {\n\t\t<b></b>\n\t} else {\n\t\t<i></i>\n\t}\n\tswitch x {\n\tcase 1:\n\t\t<a></a>\n\tdefault:\n\t\t<b></b>\n\t}\n}\n",
 		"attrs":            "package p\n\ntempl a(u string, ok bool, at templ.Attributes) {\n\t<a href={ templ.URL(u) } disabled?={ ok } { at... } if ok {\n\t\tclass=\"x\"\n\t}>{ u }</a>\n\t@b(u) {\n\t\t<i>{ u }</i>\n\t}\n\t@b(u)\n}\n\ntempl b(s string) {\n\t{ children... }\n}\n",
